@@ -236,6 +236,25 @@ def _polyfile_case(args):
                     ref[pf.unique_id] = (q, pf.filter(q[:, 0], q[:, 1]),
                                          pf.axes, pf.inverted, pf.name,
                                          pts)
+                for pf in list(pfs):
+                    q, cls = ref[pf.unique_id][0], ref[pf.unique_id][1]
+                    c1 = pf.copy()
+                    c2 = pf.copy(invert=True)
+                    if not (np.array_equal(c1.filter(q[:, 0], q[:, 1]), cls)
+                            and np.array_equal(c2.filter(q[:, 0], q[:, 1]),
+                                               ~cls)
+                            and c1.unique_id != pf.unique_id
+                            and c2.unique_id not in (pf.unique_id,
+                                                     c1.unique_id)
+                            and np.array_equal(pf.filter(q[:, 0], q[:, 1]),
+                                               cls)):
+                        out.append(violation(
+                            PF + ".copy", "copy-differs", case,
+                            f"filter {pf.unique_id}: copy / inverted copy "
+                            f"do not classify like / complementary to the "
+                            f"original", {"variant": "copy"}))
+                    PolygonFilter.remove(c1.unique_id)
+                    PolygonFilter.remove(c2.unique_id)
                 PolygonFilter.save_all(p)
                 PolygonFilter.clear_all_filters()
                 loaded = PolygonFilter.import_all(p)
